@@ -108,7 +108,8 @@ META.update({
                 text="Theorems eval_subst and rhsMatrixLoop_sound: whatever number of rounds, a returned right-hand side has one entry per derivative, mentions no intermediate and has the "
                      "derivative's value at every solution; states_order; pin max_tries_shape (bound = #intermediates + 1, raise only if intermediates remain). Real code: rhs_matrix / "
                      "jacobi_matrix evaluated at 40 digits against the reference, against the Lean expansion and symbolic derivative, and against 50-digit central differences; depths 4-60.",
-                note=TB + "EndToEnd.sortedAssignments_total: the state order exists for every acyclic model. Totality of rhsMatrix with the default bound is checked on chains, not yet proved in general."),
+                note=TB + "RhsMatrixTotal.rhsMatrix_total: for every well-formed acyclic model the symbolic right-hand side is produced with the default bound (#intermediates + 1), "
+                          "whatever the depth of the dependency chains (measure: position of the deepest remaining intermediate in the sorted order); EndToEnd.sortedAssignments_total: the state order exists."),
 })
 
 META.update({
